@@ -15,6 +15,8 @@ CLAIMED["C18"]=("per key family: export/import coverage of every live-written fa
   "SSA key-family resolver + store effect summaries over the VTA call graph; sibling agreement over families", "4/C18")
 CLAIMED["C16"]=("per queue: append reads/writes its own family at one epoch; promote-then-clear in the epoch hook and apply-then-clear in EndBlock are unconditional and ordered; scheduling sites write queue, reverse lookup and hold consistently; completion epoch formula; hold-decision exits and the opt-out arm's epoch source",
   "effect-typed call matching (which family a call touches) + structured ordering/conditionality rules over type-checked AST", "4/C16")
+CLAIMED["C06"]=("only dogfood EndBlock returns updates and only under the epoch-end marker; told = stored; validator-set families written only from the EndBlock/InitGenesis call trees; one cache context per change and forwarding exactly when committed; zero-power/unknown-key filters; previous-set map maintenance; total-order comparators (power desc, address bytes asc); cap and eligibility wiring",
+  "structured-dominance facts and comparator classification over type-checked AST; store effect summaries for who-may-write; cache-context typestate", "4/C06")
 NA={}
 def main():
     checks=[]
